@@ -209,6 +209,55 @@ pub fn run_lines(lines: &[String], oracles: bool) -> RunResult {
                 }
                 _ => rr.out.obs.push("bad-op".into()),
             },
+            Some("regprobe") => {
+                // C04 (rollback) on a host built from tracing-subscriber's `Registry`, whose own
+                // bookkeeping goes through the current dispatcher (closing a span releases its reference
+                // on the parent that way): an execution that creates nested spans is discarded; every
+                // span born in it must end up closed on the host and no span may stay current. A
+                // capture layer on the registry tells what the host has closed.
+                use tracing_subscriber::layer::SubscriberExt;
+                let mut r = Rng::new(t.num::<u64>().unwrap_or(1));
+                let storage = tracing_capture::SharedStorage::default();
+                let host = tracing_subscriber::Registry::default().with(tracing_capture::CaptureLayer::new(&storage));
+                let d = Dispatch::new(host);
+                let site = Site { is_span: true, level: 2, name: "reg".into(), target: "regprobe".into(), module_path: None, file: None, line: None, fields: vec!["a".into()] };
+                note_site(site.clone());
+                let mut evs = vec![Ev::NewCallSite { id: 9100, site }];
+                let n = r.range(2, 7) as u64;
+                let mut entered: Vec<u64> = vec![];
+                for id in 1..=n {
+                    let parent = if id > 1 && r.chance(1, 3) { Some(1 + r.below(id as usize - 1) as u64) } else { None };
+                    evs.push(Ev::NewSpan { id, parent, mt: 9100, values: vec![] });
+                    if r.chance(2, 3) {
+                        evs.push(Ev::Entered(id));
+                        entered.push(id);
+                    } else if r.chance(1, 3) {
+                        if let Some(e) = entered.pop() {
+                            evs.push(Ev::Exited(e));
+                        }
+                    }
+                }
+                let current_after = dispatcher::with_default(&d, || {
+                    let mut recv = TracingEventReceiver::default();
+                    for e in &evs {
+                        let _ = recv.try_receive(e.to_real());
+                    }
+                    drop(recv);
+                    dispatcher::get_default(|d| d.current_span().id().map(tracing_core::span::Id::into_u64))
+                });
+                let lock = storage.lock();
+                let open: Vec<usize> = lock.all_spans().enumerate().filter(|(_, s)| !s.stats().is_closed).map(|(i, _)| i).collect();
+                let total = lock.all_spans().len();
+                // (the description interned here gets the next interning number, as in the driver)
+                if let Some(sp) = lock.all_spans().next() {
+                    let _ = crate::hosts::meta_index(sp.metadata());
+                }
+                drop(lock);
+                if total != n as usize || !open.is_empty() || current_after.is_some() {
+                    fail!("C04 an execution with {n} spans was discarded on a Registry host: {total} spans reached the host, spans {open:?} (in creation order) were not closed, current span afterwards {current_after:?}; stream: {}", evs.iter().map(Ev::tok).collect::<Vec<_>>().join(" ; "));
+                }
+                rr.out.tags.push("regprobe".into());
+            }
             Some("leakprobe") => {
                 // C09, last clause: what the process retains for call sites is bounded by the number of
                 // distinct descriptions, not by the number of executions. The same small execution
@@ -1135,6 +1184,9 @@ impl Suite for Receiver {
             "C13" => 8,
             _ => idx % 6,
         };
+        if focus == "C04" && idx % 5 == 3 {
+            lines.push(format!("regprobe {}", rng.next() % 1_000_000));
+        }
         let mut g = Guest::default();
         let mut snap = g.clone();
         let (mut cold_n, mut cold_line) = (0usize, String::new());
